@@ -1,4 +1,5 @@
 import TF.Proofs.Conv
+import TF.Proofs.GenBridgeConv
 /-!
 # C20 — Digest and element conversions are lossless, order-preserving and strict
 
@@ -265,5 +266,112 @@ theorem default_and_vec_spec {d : List Nat} (h : WFd d) :
     omega
   · unfold digestFromVec digestToVec; rw [if_pos h.1]
 example : WFd [P - 1, 0, 0, 0, 1] := by decide
+
+end TF.C20
+
+/-! ## regenerated-from-source bridge (BT5)
+
+The conversions of `digest.rs`, `b_field_element.rs` and `x_field_element.rs` are **also regenerated from the source on
+every run** (`TF/Gen/ConvLoops.lean`, `TF.Gen.Loops.conv_*`, written by `tools/rs2lean_conv.py`): `try_new` (through the
+translated `is_canonical`), `TryFrom<[u8; 8]>` / `TryFrom<&[u8]>` / `From<_> for [u8; 8]` of `BFieldElement`,
+`From<Digest> for [u8; 40]`, `TryFrom<[u8; 40]>` / `TryFrom<&[u8]>` / `TryFrom<BigUint>` for `Digest`, `From<Digest> for
+BigUint`, `Ord`/`PartialOrd for Digest`, `Digest::{new, values, reversed}`, `From<XFieldElement> for Digest`,
+`TryFrom<Digest> for XFieldElement`.  The regenerated code works on *raw Montgomery words* (a `BFieldElement` is its
+`u64`; `new`/`value` are the translated `bfe_new`/`bfe_value` of C01), `Result<T, E>` is `Except String T` (the error is
+the variant's name), every function `f` has a twin `f_ok` (true iff nothing panics).  `vals r = r.map bfe_value` reads the
+canonical values of a list of words, `toOpt` forgets the error kind, `Raw r`: all words `< P`.  Proofs:
+`TF/Proofs/GenBridgeConv.lean`.  A one-token change of one of these Rust functions changes `TF.Gen.Loops.conv_*`; the
+theorems below are then re-checked or break. -/
+namespace TF.C20
+open TF.Conv TF.Gen TF.GenBridge.Conv
+
+/-- regenerated element conversions = hand model: `try_new` accepts exactly the values `< P` (never reduces); byte
+    array / byte slice parsers; the byte encoding; none of them can panic -/
+theorem gen_bfe_conversions_eq_model (v : Nat) (bs : List Nat) (r : Nat) :
+    (Loops.conv_bfe_try_new v = if v < P then .ok (bfe_new v) else .error "NotCanonical") ∧
+    (toOpt (Loops.conv_bfe_try_new v)).map bfe_value = bfeTryNew v ∧ Loops.conv_bfe_try_new_ok v = true ∧
+    (toOpt (Loops.conv_bfe_try_from_array bs)).map bfe_value = bfeTryNew (TF.Conv.ofLeBytes bs) ∧
+    (toOpt (Loops.conv_bfe_try_from_slice bs)).map bfe_value = bfeFromBytes bs ∧
+    Loops.conv_bfe_try_from_slice_ok bs = true ∧
+    Loops.conv_bfe_to_bytes r = bfeToBytes (bfe_value r) ∧ Loops.conv_bfe_to_bytes_ok r = true :=
+  ⟨gen_try_new v, gen_try_new_model v, gen_try_new_ok v, (gen_bfe_try_from_array bs).1, (gen_bfe_try_from_slice bs).1,
+    (gen_bfe_try_from_slice bs).2, (gen_bfe_to_bytes r).1, (gen_bfe_to_bytes r).2⟩
+example : Loops.conv_bfe_try_new 18446744069414584320 = .ok (bfe_new 18446744069414584320) ∧
+    Loops.conv_bfe_try_new 18446744069414584321 = .error "NotCanonical" ∧
+    Loops.conv_bfe_try_from_slice [1, 0, 0, 0, 0, 0, 0] = .error "InvalidNumBytes" ∧
+    Loops.conv_bfe_try_from_slice [1, 0, 0, 0, 255, 255, 255, 255] = .error "NotCanonical" ∧
+    Loops.conv_bfe_to_bytes (bfe_new 258) = [2, 1, 0, 0, 0, 0, 0, 0] := by decide +kernel
+
+/-- regenerated `From<Digest> for [u8; 40]`, `TryFrom<[u8; 40]> for Digest`, `TryFrom<&[u8]> for Digest` = hand model (any
+    five words; any byte list); no `unwrap()` in them can fail -/
+theorem gen_digest_bytes_eq_model (r bs : List Nat) (hr : r.length = 5) :
+    Loops.conv_digest_to_bytes r = digestToBytes (vals r) ∧ Loops.conv_digest_to_bytes_ok r = true ∧
+    (bs.length = 40 → (toOpt (Loops.conv_digest_try_from_array bs)).map vals = digestFromByteArray bs ∧
+      Loops.conv_digest_try_from_array_ok bs = true) ∧
+    (toOpt (Loops.conv_digest_try_from_slice bs)).map vals = digestFromBytes bs ∧
+    Loops.conv_digest_try_from_slice_ok bs = true :=
+  ⟨(gen_digest_to_bytes r hr).1, (gen_digest_to_bytes r hr).2, gen_digest_try_from_array bs,
+    (gen_digest_try_from_slice bs).1, (gen_digest_try_from_slice bs).2⟩
+example : Loops.conv_digest_try_from_slice (wordsToBytes [1, 2, 3, 4, 18446744069414584321]) = .error "InvalidBFieldElement" ∧
+    Loops.conv_digest_try_from_slice (wordsToBytes [1, 2, 3, 4]) = .error "InvalidLength" ∧
+    (toOpt (Loops.conv_digest_try_from_slice (wordsToBytes [1, 2, 3, 4, 18446744069414584320]))).map vals
+      = some [1, 2, 3, 4, 18446744069414584320] := by decide +kernel
+
+/-- regenerated `TryFrom<BigUint> for Digest` (the `iter_mut` loop, the `u64::try_from(..).unwrap()`, the overflow check)
+    and `From<Digest> for BigUint` (the reversed Horner loop) = hand model -/
+theorem gen_digest_biguint_eq_model (v : Nat) (r : List Nat) (hr : r.length = 5) :
+    (toOpt (Loops.conv_digest_try_from_biguint v)).map vals = digestFromNat v ∧
+    Loops.conv_digest_try_from_biguint_ok v = true ∧
+    Loops.conv_digest_to_biguint r = digestToNat (vals r) ∧ Loops.conv_digest_to_biguint_ok r = true := by
+  obtain ⟨a, b, c, d, e, rfl⟩ := len5 hr
+  exact ⟨(gen_digest_try_from_biguint v).1, (gen_digest_try_from_biguint v).2, (gen_digest_to_biguint a b c d e).1,
+    (gen_digest_to_biguint a b c d e).2⟩
+example : Loops.conv_digest_try_from_biguint (P ^ 5) = .error "Overflow" ∧
+    (toOpt (Loops.conv_digest_try_from_biguint (P ^ 5 - 1))).map vals = some [P - 1, P - 1, P - 1, P - 1, P - 1] ∧
+    Loops.conv_digest_to_biguint [bfe_new 1, bfe_new 0, bfe_new 0, bfe_new 0, bfe_new 2] = 1 + 2 * P ^ 4 := by
+  decide +kernel
+
+/-- regenerated `Ord` / `PartialOrd for Digest`, `reversed`, `From<XFieldElement> for Digest`,
+    `TryFrom<Digest> for XFieldElement` = hand model -/
+theorem gen_digest_cmp_reversed_xfe_eq_model (r₁ r₂ : List Nat) (a b c d e : Nat) (hd : d < P) (he : e < P) :
+    Loops.conv_digest_cmp r₁ r₂ = digestCmp (vals r₁) (vals r₂) ∧ Loops.conv_digest_cmp_ok r₁ r₂ = true ∧
+    Loops.conv_digest_partial_cmp r₁ r₂ = some (digestCmp (vals r₁) (vals r₂)) ∧
+    digestReversed (vals [a, b, c, d, e]) = some (vals (Loops.conv_digest_reversed [a, b, c, d, e])) ∧
+    vals (Loops.conv_xfe_to_digest [a, b, c]) = xfeToDigest (bfe_value a, bfe_value b, bfe_value c) ∧
+    (toOpt (Loops.conv_xfe_try_from_digest [a, b, c, d, e])).map
+        (fun l => (bfe_value (l.getD 0 0), bfe_value (l.getD 1 0), bfe_value (l.getD 2 0)))
+      = xfeFromDigest (vals [a, b, c, d, e]) ∧
+    Loops.conv_xfe_try_from_digest_ok [a, b, c, d, e] = true :=
+  ⟨(gen_digest_cmp r₁ r₂).1, (gen_digest_cmp r₁ r₂).2.1, (gen_digest_cmp r₁ r₂).2.2, (gen_digest_reversed a b c d e).1,
+    (gen_xfe_to_digest a b c).1, (gen_xfe_try_from_digest a b c d e hd he).1, (gen_xfe_try_from_digest a b c d e hd he).2⟩
+example : Loops.conv_digest_cmp [bfe_new 5, 0, 0, 0, bfe_new 1] [0, 0, 0, 0, bfe_new 2] = .lt ∧
+    Loops.conv_xfe_try_from_digest [bfe_new 1, bfe_new 2, bfe_new 3, 0, bfe_new 1] = .error "InvalidDigest" ∧
+    Loops.conv_xfe_try_from_digest [bfe_new 1, bfe_new 2, bfe_new 3, 0, 0] = .ok [bfe_new 1, bfe_new 2, bfe_new 3] := by
+  decide +kernel
+
+/-- **transfer**: the C20 statements for the code as it is in the source now.  For every digest of canonical words `r`:
+    bytes round trip (`bytes_roundtrip`), every length other than 40 is rejected (`bytes_reject`), `TryFrom<BigUint>`
+    accepts exactly the integers below `P⁵` with the exact digits (`biguint_reject`), `From<Digest> for BigUint` is the
+    base-`P` value and converts back (`biguint_roundtrip`), `Ord` is the numeric order of these values (`biguint_order`) -/
+theorem gen_conv_transfer {r₁ r₂ : List Nat} (h₁ : r₁.length = 5) (h₂ : r₂.length = 5) (w₁ : Raw r₁) (w₂ : Raw r₂) :
+    (toOpt (Loops.conv_digest_try_from_slice (Loops.conv_digest_to_bytes r₁))).map vals = some (vals r₁) ∧
+    (∀ bs : List Nat, bs.length ≠ 40 → toOpt (Loops.conv_digest_try_from_slice bs) = none) ∧
+    (∀ v, (toOpt (Loops.conv_digest_try_from_biguint v)).map vals = if v < P ^ 5 then some (ofNatP 5 v) else none) ∧
+    Loops.conv_digest_to_biguint r₁ = valP (vals r₁) ∧
+    (toOpt (Loops.conv_digest_try_from_biguint (Loops.conv_digest_to_biguint r₁))).map vals = some (vals r₁) ∧
+    Loops.conv_digest_cmp r₁ r₂ = compare (Loops.conv_digest_to_biguint r₁) (Loops.conv_digest_to_biguint r₂) := by
+  have wf₁ := wfd_vals h₁ w₁
+  have wf₂ := wfd_vals h₂ w₂
+  have hb₁ := (gen_digest_biguint_eq_model 0 r₁ h₁).2.2.1
+  have hb₂ := (gen_digest_biguint_eq_model 0 r₂ h₂).2.2.1
+  refine ⟨?_, fun bs hl => ?_, fun v => ?_, ?_, ?_, ?_⟩
+  · rw [(gen_digest_bytes_eq_model r₁ _ h₁).2.2.2.1, (gen_digest_bytes_eq_model r₁ [] h₁).1]
+    exact (bytes_roundtrip wf₁).1
+  · exact toOpt_none_of_map (f := vals) (by rw [(gen_digest_try_from_slice bs).1]; exact bytes_reject.1 bs hl)
+  · rw [(gen_digest_try_from_biguint v).1]; exact (biguint_reject v).1
+  · rw [hb₁]; exact (biguint_roundtrip wf₁).1
+  · rw [(gen_digest_try_from_biguint _).1, hb₁]; exact (biguint_roundtrip wf₁).2.2
+  · rw [(gen_digest_cmp r₁ r₂).1, hb₁, hb₂]; exact (biguint_order wf₁ wf₂).1
+example : Raw [bfe_new 7, 0, 0, 0, bfe_new 1] ∧ [bfe_new 7, 0, 0, 0, bfe_new 1].length = 5 := by decide +kernel
 
 end TF.C20
